@@ -32,6 +32,7 @@ import (
 	"os"
 	"os/exec"
 	"path/filepath"
+	"regexp"
 	"runtime/pprof"
 	"sort"
 	"strings"
@@ -54,7 +55,7 @@ func main() {
 	}
 	c.Rule("Decoder cases: TLC (Malformed.tla) enumerates (wire type, small valid shape, structural item, corruption) and emits the bytes; a case is distinct by " +
 		"(type, shape, case number) and non-trivial iff its bytes differ from the valid encoding. JSON / text cases: every catalogue entry at sampled nodes of valid " +
-		"documents of every reachable type of core; non-trivial iff the document differs from the valid one. Ledger cases: (catalogue entry of Extremes.tla) x (valid " +
+		"documents of every reachable type of core (each counts: a replacement is never the node's own text). Ledger cases: (catalogue entry of Extremes.tla) x (valid " +
 		"transaction of an accepted block of a replayed Ledger.tla behaviour) x (as is | re-signed and re-sealed); distinct by (entry, sealing, transaction template, era); " +
 		"non-trivial iff the entry changed the block. evaluations = cases executed on the real code.")
 	c.Assume("the schema lines of spec/wire and the generic transaction of spec/ledger/Ledger.tla describe the formats and the ledger (bound to the code by C11 and C01..C08)")
@@ -113,6 +114,15 @@ func main() {
 			return
 		}
 		lines := unquoteLines(resM.Lines)
+		if os.Getenv("C10_CORRUPT_SPEC") != "" { // demonstration: one announced case count of the specification changed
+			re := regexp.MustCompile(`"n":(\d+)`)
+			for i, ln := range lines {
+				if strings.HasPrefix(ln, "SHAPE ") {
+					lines[i] = re.ReplaceAllString(ln, `"n":1$1`)
+					break
+				}
+			}
+		}
 		var err error
 		if cat, err = parseCatalogue(lines); err != nil {
 			c.Infra("Malformed.tla output: %v", err)
@@ -191,7 +201,8 @@ func main() {
 	for _, u := range decRes.units {
 		perType[u.Type] += u.N
 		evals += int64(u.N)
-		nontrivial += int64(u.N)
+		nontrivial += int64(u.N - u.Trivial)
+		outcomes["decode_cases_equal_to_the_valid_encoding"] += u.Trivial
 		perEntry["DecodeFrom"] += int64(u.N)
 		outcomes["decode_error"] += u.Err
 		outcomes["decode_value"] += u.OK
@@ -276,7 +287,7 @@ func main() {
 	c.Cov("cases_remeasured_alone_for_allocation", remeasured)
 
 	// ---- ledger
-	evals += ls.mutants
+	evals += ls.mutants + int64(rs.Rejected)
 	nontrivial += int64(len(ls.distinct))
 	for k, v := range ls.perEntry {
 		perEntry[k] += v
@@ -316,6 +327,7 @@ func main() {
 	c.Traces(int64(rs.Behaviours))
 	c.Cov("ledger_behaviours_replayed", rs.Behaviours)
 	c.Cov("ledger_blocks_mutated", ls.blocks)
+	c.Cov("ledger_defective_blocks_of_the_model_validated", rs.Rejected)
 	c.Cov("ledger_mutants", ls.mutants)
 	c.Cov("ledger_mutants_by_family", ls.perFam)
 	c.Cov("ledger_catalogue_entries_applied", len(ls.entriesHit))
@@ -336,6 +348,7 @@ func main() {
 		dc := cat.caseAt(sh, cat.numCases(sh)/2)
 		c.Sample(map[string]any{"decode_case": map[string]any{"type": sh.Type, "class": dc.Class, "variant": dc.Variant, "member": dc.Owner + "." + dc.Path, "valid": fmt.Sprintf("%x", sh.Bytes), "malformed": fmt.Sprintf("%x", dc.B)}})
 	}
+	c.CovAdd("goroutines_abandoned_after_deadline", leaked.Load()) // those of the ledger side (this process)
 	c.Count(evals, nontrivial)
 	pprof.StopCPUProfile()
 	c.Finish()
